@@ -1221,6 +1221,10 @@ impl Connection {
                     debug!("path validation failed");
                     if let Some((_, prev)) = self.prev_path.take() {
                         self.path = prev;
+                        // Packets sent on the abandoned path are not counted in flight on this one,
+                        // so no loss detection timer covers them. Probe the restored path: the
+                        // acknowledgement lets them be declared lost and their frames retransmitted.
+                        self.ping();
                         self.set_loss_detection_timer(now);
                     }
                     self.path.challenge = None;
